@@ -6,6 +6,7 @@ V = os.path.dirname(os.path.dirname(os.path.abspath(__file__)))
 S = os.path.join(V, "seeded")
 os.makedirs(S, exist_ok=True)
 rows = []
+seen = {}
 for rf in sorted(glob.glob("/tmp/seed-results-C*.txt")):
     P = re.search(r"results-(C\d+)", rf).group(1)
     txt = open(rf).read()
@@ -36,7 +37,9 @@ for rf in sorted(glob.glob("/tmp/seed-results-C*.txt")):
         caught = [c[0] for c in checks if c[1] == "1"]
         meta["caught_by"] = caught
         json.dump(meta, open(os.path.join(dst, "meta.json"), "w"), indent=1)
+        seen[(p, i)] = len(rows)
         rows.append((p, i, summary[:170], suite, ", ".join("%s(%s)" % (c[0], c[3].strip().split(" ")[0].replace("key=", "")) for c in checks if c[1] == "1") or "-", ", ".join(c[0] for c in checks if c[1] != "1")))
+rows = [r for k, r in enumerate(rows) if seen[(r[0], r[1])] == k]  # a later trial of the same change replaces the earlier one
 with open(os.path.join(S, "README.md"), "w") as f:
     f.write("# Independently seeded breaking changes\n\nProduced by fresh sub-agents that saw only the property text and a scratch worktree; confirmed with `tools/try_seed.sh` (applies to /repo HEAD, builds, existing suite passes) and run against the checks through `VERIF_REPO_DIR` (never applied to /repo). One directory per change: patch.diff, the demonstration, demo_output.txt, meta.json.\n\n")
     f.write("| change | what | suite | caught by (first finding key) | checks that stayed silent |\n|---|---|---|---|---|\n")
